@@ -15,6 +15,7 @@ import (
 	"strconv"
 	"strings"
 	"time"
+	"verif/harness/storechk"
 )
 
 // ---- shared result format between worker and supervisor ---------------------------------------
@@ -47,15 +48,15 @@ func (r *WorkerResult) count(k string, n int64) {
 }
 
 type Ctx struct {
-	Prop    string
-	Tier    string
-	Seed    uint64
-	Shard   int
-	Of      int
-	OutDir  string // scratch (removed by the supervisor)
+	Prop      string
+	Tier      string
+	Seed      uint64
+	Shard     int
+	Of        int
+	OutDir    string // scratch (removed by the supervisor)
 	ReplayDir string
-	Res     *WorkerResult
-	seen    map[string]bool
+	Res       *WorkerResult
+	seen      map[string]bool
 }
 
 func (c *Ctx) Quick() bool { return c.Tier != "thorough" }
@@ -120,8 +121,8 @@ type PropDef struct {
 	ID      string
 	Level   string // exploration | fault_enumeration
 	Workers func(tier string) int
-	Run     func(c *Ctx)                        // worker body
-	Replay  func(c *Ctx, raw json.RawMessage)   // re-run a stored case
+	Run     func(c *Ctx)                      // worker body
+	Replay  func(c *Ctx, raw json.RawMessage) // re-run a stored case
 	Rule    string
 	Floors  map[string]int64 // coverage floors (quick tier); thorough uses the same
 	Assume  []string
@@ -170,6 +171,12 @@ func main() {
 	}
 	if os.Args[1] == "--worker" {
 		workerMain(os.Args[2:])
+		return
+	}
+	if os.Args[1] == "--c13child" && len(os.Args) == 6 {
+		v, _ := strconv.Atoi(os.Args[4])
+		i, _ := strconv.Atoi(os.Args[5])
+		storechk.C13Child(os.Args[2], os.Args[3], v, i)
 		return
 	}
 	if os.Args[1] == "--digest" {
